@@ -516,7 +516,7 @@ func buildDoc(r *rand.Rand, small bool) gen.Doc {
 		`.tc::after { content: " p." target-counter(attr(href), page) " " target-text(attr(href), content) }`,
 		`.toc { margin: 0 } .fl { border: 1px solid; margin: 1px }`,
 		`.tq { quotes: "<" ">" "[" "]" } .tq::before { content: open-quote target-text(attr(href), content) " " } .tq::after { content: " p" target-counter(attr(href), page) close-quote }`,
-		`.cs1 { list-style: cs1 } .cs2 { list-style: cs2 inside } .cs3 { list-style: cs3 } .cs4 { list-style: cs4 } .roman { list-style: upper-roman } .greek { list-style: lower-greek }`,
+		`.cs1 { list-style: cs1 } .cs2 { list-style: cs2 inside } .cs3 { list-style: cs3 } .cs4 { list-style: cs4 } .roman { list-style: upper-roman } .greek { list-style: lower-greek } .lroman { list-style: lower-roman inside }`,
 		`.hy { hyphens: auto; text-align: justify } .hm { hyphens: manual; text-align: justify }`,
 		`.gc1::before { content: counter(c) ". "; counter-increment: c } .gc1::after { content: " [" attr(title) "]" }`,
 		`.gc2::before { content: open-quote } .gc2::after { content: close-quote } .gc2 { quotes: "<" ">" }`,
@@ -536,9 +536,57 @@ func buildDoc(r *rand.Rand, small bool) gen.Doc {
 		`@counter-style cs3 { system: extends decimal; prefix: "` + gen.Pick(r, []string{"[", "(", "<"}) + `"; suffix: "] "; pad: ` + fmt.Sprint(1+r.Intn(3)) + ` "0" }`,
 		`@counter-style cs4 { system: alphabetic; symbols: ` + gen.Pick(r, []string{`"a" "b" "c"`, `"p" "q"`}) + ` }`,
 	}
-	for _, c := range csDefs {
+	var csRules []string
+	csDefined := ""
+	for i, c := range csDefs {
 		if r.Intn(4) != 0 {
-			g.css = append(g.css, c)
+			csRules = append(csRules, c)
+			csDefined += fmt.Sprint(i + 1)
+		}
+	}
+	// a quarter of the documents also (try to) redefine a predefined counter style: lower-greek /
+	// upper-roman / lower-roman may be overridden (css-counter-styles-3 §2: only decimal, disc, square,
+	// circle, disclosure-* may not), and the redefinition holds for that document only
+	csOverride := ""
+	if r.Intn(4) == 0 {
+		csOverride = gen.Pick(r, []string{"lower-greek", "upper-roman", "lower-roman", "disc"})
+		csRules = append(csRules, `@counter-style `+csOverride+` { system: `+gen.Pick(r, []string{`cyclic; symbols: "g" "h"`, `numeric; symbols: "0" "1"`, `fixed; symbols: "A" "B" "C"`})+`; suffix: ": " }`)
+	}
+	// route of these rules into the render's counter-style table: the document's <style>, a linked
+	// sheet, a sheet imported by the <style> (media list or not), or a sheet imported by an imported /
+	// linked sheet (relative URL, in a third of the cases with a circular @import back)
+	csRoute := "inline"
+	csSheet := strings.Join(csRules, "\n") + fmt.Sprintf("\n.csm li { padding-left: %dpx }", r.Intn(3))
+	files := map[string]string{}
+	csLink := ""
+	switch k := r.Intn(11); {
+	case k < 4:
+		g.css = append(g.css, csRules...)
+	case k < 7:
+		csRoute = "import"
+		media := gen.Pick(r, []string{"", "", "", " print", " all", " screen, print", " screen"})
+		if media == " screen" {
+			csRoute = "import-screen" // not applied to the print medium: every cs* falls back to decimal
+		}
+		imp := gen.Pick(r, []string{`@import url(mem://doc/cs.css)%s;`, `@import "mem://doc/cs.css"%s;`, `@import url("cs.css")%s;`, `@import 'cs.css'%s;`})
+		g.css = append([]string{`@charset "utf-8";`, fmt.Sprintf(imp, media)}, g.css...)
+		files["cs.css"] = csSheet
+	case k < 9:
+		csRoute = "link"
+		csLink = `<link rel="stylesheet" href="` + gen.Pick(r, []string{"mem://doc/cs.css", "cs.css"}) + `">`
+		files["cs.css"] = csSheet
+	default:
+		csRoute = "nested"
+		back := ""
+		if r.Intn(3) == 0 {
+			back = "@import \"imp.css\";\n" // circular: refused by the fetcher guard, the rest of the sheet applies
+		}
+		files["cs.css"] = back + csSheet
+		files["imp.css"] = "@import url(cs.css);\nol.csm { margin-left: " + fmt.Sprint(20+5*r.Intn(3)) + "px }"
+		if r.Intn(2) == 0 {
+			g.css = append([]string{`@import "imp.css";`}, g.css...)
+		} else {
+			csLink = `<link rel="stylesheet" href="mem://doc/imp.css">`
 		}
 	}
 	if r.Intn(3) == 0 {
@@ -577,14 +625,27 @@ func buildDoc(r *rand.Rand, small bool) gen.Doc {
 		}
 		g.body = append([]string{"<ul class=toc>" + sb.String() + "</ul>"}, g.body...)
 	}
-	meta := ""
+	csSampler := r.Intn(3) != 0
+	if csSampler {
+		// one list item per counter style of the family (defined by this document or not: an undefined
+		// one falls back to decimal), at a random place
+		var sb strings.Builder
+		for _, c := range []string{"cs1", "cs2", "cs3", "cs4", "roman", "greek", "lroman"} {
+			if r.Intn(5) != 0 {
+				fmt.Fprintf(&sb, `<li class="%s">%s</li>`, c, gen.Pick(r, plainWords))
+			}
+		}
+		at := r.Intn(len(g.body) + 1)
+		g.body = append(g.body[:at:at], append([]string{fmt.Sprintf(`<ol class="csm" start="%d">%s</ol><ul class="csm"><li>%s</li></ul>`, 1+r.Intn(12), sb.String(), gen.Pick(r, plainWords))}, g.body[at:]...)...)
+	}
+	meta := csLink
 	if r.Intn(3) == 0 {
-		meta = `<title>` + g.words(2) + `</title><meta name="author" content="A"><meta name="keywords" content="k1, k2"><meta name="dcterms.created" content="2020-01-02T03:04:05Z">`
+		meta += `<title>` + g.words(2) + `</title><meta name="author" content="A"><meta name="keywords" content="k1, k2"><meta name="dcterms.created" content="2020-01-02T03:04:05Z">`
 	}
 	if r.Intn(3) == 0 {
 		meta += `<link rel="stylesheet" href="mem://doc/extra.css">`
 	}
-	html := `<!DOCTYPE html><html lang="` + gen.Pick(r, []string{"en", "fr", "de", "en-GB", "fr-CA", "de-AT"}) + `"><head>` + meta + `<style>` + strings.Join(g.css, "\n") + `</style></head><body>` + strings.Join(g.body, "\n") + `</body></html>`
+	html := `<!DOCTYPE html><html lang="` + gen.Pick(r, []string{"en", "fr", "de", "en-GB", "fr-CA", "de-AT"}) + `" data-csr="` + csRoute + `" data-csd="` + csDefined + `" data-cso="` + csOverride + `" data-css="` + fmt.Sprint(csSampler) + `"><head>` + meta + `<style>` + strings.Join(g.css, "\n") + `</style></head><body>` + strings.Join(g.body, "\n") + `</body></html>`
 	d := gen.Doc{HTML: html, Hints: r.Intn(3) == 0}
 	if g.gotext {
 		d.Engine = "gotext"
@@ -600,6 +661,9 @@ func buildDoc(r *rand.Rand, small bool) gen.Doc {
 		"extra.css": fmt.Sprintf(`p { letter-spacing: %dpx } #k37 { color: %s }`, r.Intn(3), gen.Pick(r, []string{"red", "green", "blue"})),
 		"grad.svg":  gradSVG(r),
 		"pic.svg":   fmt.Sprintf(`<svg xmlns="http://www.w3.org/2000/svg" width="%d" height="8"><rect width="4" height="%d" fill="%s"/><text x="1" y="7" font-family="Ahem" font-size="4">ab</text></svg>`, 6+r.Intn(6), 2+r.Intn(5), gen.Pick(r, []string{"green", "red", "#123456"})),
+	}
+	for k, v := range files {
+		d.Files[k] = v
 	}
 	return d
 }
